@@ -194,7 +194,7 @@ fn main() {
 
     let seed = ctx.seed;
     let tier = ctx.tier;
-    let per_spec: Vec<(Vec<CaseResult>, Option<String>, Option<(bool, String)>)> = specs
+    let per_spec: Vec<(Vec<CaseResult>, Option<String>, Option<(bool, String)>, Option<String>)> = specs
         .par_iter()
         .enumerate()
         .map(|(si, (spec, wseed))| {
@@ -202,10 +202,10 @@ fn main() {
             let inst = instance_of::<Fq>(spec, *wseed);
             let honest = match tables_for(spec, *wseed, &[], &inst) {
                 Ok(t) => t,
-                Err(e) => return (vec![], Some(format!("generator bug (synthesis): {e}")), None),
+                Err(e) => return (vec![], Some(format!("generator bug (synthesis): {e}")), None, None),
             };
             if !honest.satisfied() {
-                return (vec![], Some(format!("generator bug: honest case unsatisfied {:?}", honest.violations(3))), None);
+                return (vec![], Some(format!("generator bug: honest case unsatisfied {:?}", honest.violations(3))), None, None);
             }
             // honest mock verdict (a disagreement on the honest assignment is itself a finding)
             let hc = GenCircuit::new(spec.clone(), *wseed);
@@ -222,8 +222,32 @@ fn main() {
             });
             let (vk, pk) = match keys {
                 Ok(Ok(x)) => x,
-                other => return (vec![], Some(format!("keygen failed: {:?}", other.map(|r| r.map(|_| ())))), honest_mock_note),
+                other => return (vec![], Some(format!("keygen failed: {:?}", other.map(|r| r.map(|_| ())))), honest_mock_note, None),
             };
+
+            // monitor: the verifying key commits to exactly the fixed table (fixed columns, then
+            // selectors as 0/1 columns) that the harness collector sees for this circuit
+            let mut key_note: Option<String> = None;
+            {
+                use midnight_proofs::poly::commitment::PolynomialCommitmentScheme;
+                let dom = vk.get_domain();
+                let mut cols: Vec<Vec<Fq>> = honest.fixed.clone();
+                for sel in &honest.selectors {
+                    cols.push(sel.iter().map(|b| if *b { Fq::ONE } else { Fq::ZERO }).collect());
+                }
+                let coms = vk.fixed_commitments();
+                if coms.len() != cols.len() {
+                    key_note = Some(format!("vk has {} fixed commitments, the circuit has {} fixed+selector columns", coms.len(), cols.len()));
+                } else {
+                    for (i, col) in cols.into_iter().enumerate() {
+                        let c: G1Projective = CS::commit_lagrange(params, &dom.lagrange_from_vec(col));
+                        if c != coms[i] {
+                            key_note = Some(format!("fixed commitment {i} of the verifying key differs from the commitment to column {i} of the circuit's fixed table"));
+                            break;
+                        }
+                    }
+                }
+            }
 
             // enumerate candidate faults
             let cells = honest.assigned_advice_cells();
@@ -277,6 +301,37 @@ fn main() {
                     });
                 }
             }
+            // multi-cell faults: all inputs of one lookup row forced to zero
+            {
+                let plan = Plan::derive(spec);
+                for (li, rows) in plan.lookup_rows.iter().enumerate() {
+                    for row in rows {
+                        let faults: Vec<Fault> = spec.lookups[li]
+                            .inputs
+                            .iter()
+                            .map(|(c, r)| Fault {
+                                col: *c,
+                                row: (*row as i64 + *r as i64) as usize,
+                                kind: FaultKind::Zero,
+                            })
+                            .collect();
+                        let Ok(t) = tables_for(spec, *wseed, &faults, &inst) else { continue };
+                        if t.advice == honest.advice {
+                            continue;
+                        }
+                        let classes = classes_of(&t.violations(64));
+                        let stratum = format!("lookup-row-zero:{}", if classes.is_empty() { "none".to_string() } else { classes.join("+") });
+                        cands.push(FaultCase {
+                            spec: spec.clone(),
+                            wseed: *wseed,
+                            faults,
+                            inst_fault: None,
+                            classes,
+                            stratum,
+                        });
+                    }
+                }
+            }
             // stratified selection: round-robin over strata
             let mut by: BTreeMap<String, Vec<FaultCase>> = BTreeMap::new();
             for c in cands {
@@ -302,16 +357,26 @@ fn main() {
                 }
             }
             let results: Vec<CaseResult> = chosen.into_iter().map(|c| run_fault_case(c, &pk, &vk)).collect();
-            (results, None, honest_mock_note)
+            (results, None, honest_mock_note, key_note)
         })
         .collect();
 
     // ---- judge ----------------------------------------------------------------------------------
     let mut matrix: BTreeMap<String, BTreeMap<String, u64>> = BTreeMap::new();
-    for ((spec, wseed), (results, inconclusive, honest_mock_note)) in specs.iter().zip(per_spec) {
+    for ((spec, wseed), (results, inconclusive, honest_mock_note, key_note)) in specs.iter().zip(per_spec) {
         if let Some(why) = inconclusive {
             rep.inconclusive(&why);
             continue;
+        }
+        if let Some(note) = key_note {
+            rep.eval();
+            rep.violation(
+                "C02/family/key-fixed-table-differs-from-circuit",
+                &format!("{note}: the keys enforce a different fixed table than the one the constraint checker evaluates"),
+                json!({"spec": spec}),
+            );
+        } else {
+            rep.count("key_fixed_table_matches_circuit");
         }
         if let Some((_, failures)) = honest_mock_note {
             rep.eval();
